@@ -325,6 +325,10 @@ LOOP_THEOREMS = {'cre_eq', 'crs_eq', 'gmt_element_eq', 'construct_gmt_eq', 'cons
 CLOSED_THEOREMS = {'hitzer_tail_ok', 'hitzer_num1_eq', 'hitzer_num2_eq', 'hitzer_num3_eq', 'hitzer_num4_eq', 'hitzer_num5_eq'}
 
 
+METH_THEOREMS = {'meth_conjugate_eq', 'meth_even_eq', 'meth_odd_eq', 'meth_mag2_eq', 'meth_commutator_eq', 'meth_anticommutator_eq',
+                 'meth_pick_inv_eq', 'meth_project_eq', 'meth_dual_eq'}
+
+
 def _tie_a_one(script):
     import re
     p = subprocess.run([sys.executable if sys.executable else 'python3', str(script), '--repo', str(REPO), '--status'],
@@ -357,7 +361,7 @@ def tie_a(names=None):
     expressions of the conformal layers, `translate/loops2lean.py` for the blade-sign loops. Returns ({theorem: axioms | None}, translator status, log tail)."""
     names = set(names or [])
     scripts = []
-    if not names or names - MV_THEOREMS - LOOP_THEOREMS - CLOSED_THEOREMS:
+    if not names or names - MV_THEOREMS - LOOP_THEOREMS - CLOSED_THEOREMS - METH_THEOREMS:
         scripts.append(VERIF / 'translate' / 'py2lean.py')
     if not names or names & MV_THEOREMS:
         scripts.append(VERIF / 'translate' / 'mv2lean.py')
@@ -365,10 +369,13 @@ def tie_a(names=None):
         scripts.append(VERIF / 'translate' / 'loops2lean.py')
     if not names or names & CLOSED_THEOREMS:
         scripts.append(VERIF / 'translate' / 'closed2lean.py')
+    if not names or names & METH_THEOREMS:
+        scripts.append(VERIF / 'translate' / 'methods2lean.py')
     res, st, log = {}, dict(status={}, theorems={}), ''
     for sc in scripts:
         # what the generated file imports must be compiled first (no-op when it already is)
-        lake_build({'mv2lean': ['Proofs.Conf2', 'Proofs.CgaObj', 'Proofs.Classify'], 'closed2lean': ['Proofs.Hitzer', 'Proofs.Hitzer4', 'Proofs.Hitzer5']}.get(
+        lake_build({'mv2lean': ['Proofs.Conf2', 'Proofs.CgaObj', 'Proofs.Classify'], 'closed2lean': ['Proofs.Hitzer', 'Proofs.Hitzer4', 'Proofs.Hitzer5'],
+                    'methods2lean': ['Proofs.Invol', 'Proofs.Graded', 'Proofs.Blade']}.get(
             sc.stem, ['Model', 'Proofs.Rev', 'Proofs.Invol']))
         r, s_, l = _tie_a_one(sc)
         res.update(r)
